@@ -317,6 +317,18 @@ func (p *Packer) packWalkFn(root, src, dst string, tarW *tar.Writer, meta *Meta,
 				}
 			}
 			if ok {
+				// Everything above read the target as text. The operating system
+				// follows the links in front of a ".." before applying it, so a
+				// target can stay inside as text and still lead outside.
+				base := root
+				if src != dst {
+					base = src
+				}
+				if led, ferr := followedTarget(base, path, target); ferr == nil && !isWithin(base, led) {
+					ok, err = p.validSymlink(root, path, led)
+				}
+			}
+			if ok {
 				// We can simply copy the link.
 				header.Typeflag = tar.TypeSymlink
 				header.Linkname = filepath.ToSlash(target)
@@ -433,6 +445,16 @@ func (p *Packer) resolveExternalLink(root string, path string, hops int) (*exter
 	// related back to it (and end up named relative to the wrong directory).
 	absTarget = filepath.Clean(absTarget)
 
+	// Cleaning applies ".." to the text. Opening the link applies it after
+	// following the links in front of it, so describe the file that is opened.
+	// A target whose directory part does not exist cannot be opened at all,
+	// whatever its text cleans to.
+	led, err := followedTarget(root, path, target)
+	if err != nil {
+		return nil, fmt.Errorf("failed to get file info from file %q: %w", target, err)
+	}
+	absTarget = led
+
 	// Get the file info for the target.
 	info, err := os.Lstat(absTarget)
 	if err != nil {
@@ -449,6 +471,44 @@ func (p *Packer) resolveExternalLink(root string, path string, hops int) (*exter
 		target:    target,
 		info:      info,
 	}, err
+}
+
+// isWithin reports whether path is dir or lies below it (both clean).
+func isWithin(dir, path string) bool {
+	return path == dir || strings.HasPrefix(path, strings.TrimSuffix(dir, string(filepath.Separator))+string(filepath.Separator))
+}
+
+// followedTarget returns where the link at path with the given target leads
+// when the components in front of its last one are followed the way the
+// operating system follows them: a ".." after a symlinked directory climbs
+// from where that link leads, not from where it is written. The last component
+// itself is not followed. A result inside root is expressed below root as the
+// caller spells it. An error means the directory part of the target does not
+// exist: nothing can be read through such a link.
+func followedTarget(root, path, target string) (string, error) {
+	full := target
+	if !filepath.IsAbs(full) {
+		full = filepath.Dir(path) + string(filepath.Separator) + target
+	}
+	full = strings.TrimRight(full, string(filepath.Separator))
+	dir, last := filepath.Split(full)
+	if last == "." || last == ".." {
+		dir, last = full, ""
+	}
+	if dir == "" {
+		dir = string(filepath.Separator)
+	}
+	physDir, err := filepath.EvalSymlinks(dir)
+	if err != nil {
+		return "", err
+	}
+	led := filepath.Join(physDir, last)
+	if physRoot, err := filepath.EvalSymlinks(root); err == nil && physRoot != root {
+		if rel, err := filepath.Rel(physRoot, led); err == nil && rel != ".." && !strings.HasPrefix(rel, ".."+string(filepath.Separator)) {
+			led = filepath.Join(root, rel)
+		}
+	}
+	return led, nil
 }
 
 // Unpack is used to read and extract the contents of a slug to the dst
